@@ -196,6 +196,16 @@ protected:
   */
   inline uchar *getHeader(size_t idbucket);
 
+  /** Obtaining the number of bytes of the (encoded) header which can be
+      compared with an encoded pattern. This number is limited by the bytes
+      remaining in the sequence (this is only relevant for the last
+      buckets), so the comparison never goes beyond its end.
+      @param idbucket: the bucket.
+      @param strLen: the (encoded) pattern length.
+      @returns the number of bytes to be compared.
+  */
+  inline size_t getHeaderCmpLength(size_t idbucket, size_t strLen);
+
   /** Decodes the first string in the bucket.
       @idbucket: the bucket storing the required header.
       @returns the scanning data
